@@ -265,6 +265,8 @@ pub trait DynGen {
     fn next_u64(&mut self) -> u64;
     fn fill_bytes(&mut self, dest: &mut [u8]);
     fn boxed_clone(&self) -> Box<dyn DynGen>;
+    /// `Clone::clone_from(self, src)`; false when `src` is of another type (nothing done)
+    fn clone_from_dyn(&mut self, src: &dyn DynGen) -> bool;
     /// `None` when the type has no `PartialEq`
     fn eq_dyn(&self, other: &dyn DynGen) -> Option<bool>;
     fn jump(&mut self) -> bool;
@@ -351,6 +353,12 @@ macro_rules! det_gens {
                 fn next_u64(&mut self) -> u64 { self.0.next_u64() }
                 fn fill_bytes(&mut self, dest: &mut [u8]) { self.0.fill_bytes(dest) }
                 fn boxed_clone(&self) -> Box<dyn DynGen> { Box::new($w(self.0.clone())) }
+                fn clone_from_dyn(&mut self, src: &dyn DynGen) -> bool {
+                    match src.as_any().downcast_ref::<$w>() {
+                        Some(o) => { self.0.clone_from(&o.0); true }
+                        None => false,
+                    }
+                }
                 fn eq_dyn(&self, other: &dyn DynGen) -> Option<bool> {
                     match other.as_any().downcast_ref::<$w>() {
                         Some(o) => m_eq!($eq, self.0, o.0),
@@ -531,6 +539,17 @@ impl<F: Fn() -> u64 + Send + Sync + Clone + 'static> DynGen for JitterGen<F> {
         let clock = self.clock.reg.forks.lock().unwrap().last().cloned().expect("fork registered");
         Box::new(JitterGen { rng, clock })
     }
+    fn clone_from_dyn(&mut self, src: &dyn DynGen) -> bool {
+        match src.as_any().downcast_ref::<JitterGen<F>>() {
+            Some(o) => {
+                self.rng.clone_from(&o.rng);
+                // the timer was cloned (forked) from the source's: follow the newest fork
+                self.clock = o.clock.reg.forks.lock().unwrap().last().cloned().expect("fork registered");
+                true
+            }
+            None => false,
+        }
+    }
     fn eq_dyn(&self, _other: &dyn DynGen) -> Option<bool> {
         None
     }
@@ -643,6 +662,15 @@ macro_rules! wrapped_impl {
             }
             fn boxed_clone(&self) -> Box<dyn DynGen> {
                 Box::new($w(self.0.clone(), self.1))
+            }
+            fn clone_from_dyn(&mut self, src: &dyn DynGen) -> bool {
+                match src.as_any().downcast_ref::<$w<C>>() {
+                    Some(o) => {
+                        self.0.clone_from(&o.0);
+                        true
+                    }
+                    None => false,
+                }
             }
             fn eq_dyn(&self, _other: &dyn DynGen) -> Option<bool> {
                 None
